@@ -207,12 +207,12 @@ def piece(kind, cs, tail, V, fr, rng):
         if rng.random() < 0.3:
             rng.shuffle(order)
         return "%s = [%s|%s], %s" % (V, ",".join(hs), tail,
-                                     ", ".join("%s = %s" % (hs[i], atom_txt(cs[i])) for i in order))
+                                     ", ".join("%s = (%s)" % (hs[i], atom_txt(cs[i])) for i in order))
     if kind == "str":
         # explicit './2' structures for the first cell, Lis cells behind
         h = fr()
         t = fr()
-        return "%s = '.'(%s,%s), %s = %s, %s" % (V, h, t, h, atom_txt(cs[0]),
+        return "%s = '.'(%s,%s), %s = (%s), %s" % (V, h, t, h, atom_txt(cs[0]),
                                                 piece("lis", cs[1:], tail, t, fr, rng))
     if kind == "lit":
         if tail == "[]" and rng.random() < 0.6:
@@ -393,7 +393,6 @@ OPS = [
     ("c20rev", "proper", "c20rev({S1}, [], {R})"),
     ("member", "proper", "findall(X, member(X, {S1}), {R})"),
     ("memberchk", "", "(memberchk(b, {S1}) -> {R} = y({T1}) ; {R} = n)"),
-    ("last", "proper", "(last({S1}, X) -> {R} = y(X) ; {R} = n)"),
     ("select", "proper short", "findall(X-Y, select(X, {S1}, Y), {R})"),
     ("maplist", "proper", "maplist(char_code, {S1}, {R})"),
     ("maplist_eq", "", "(maplist(=(X), {S1}) -> {R} = y(X,{T1}) ; {R} = n)"),
